@@ -216,7 +216,8 @@ def find_partial_derivatives(expr):
         return find_partial_derivatives(expr.args)
 
     elif isinstance(expr, Pow):
-        return find_partial_derivatives(expr.base)
+        # base and exponent
+        return find_partial_derivatives(expr.args)
 
     elif isinstance(expr, (list, tuple, Tuple)):
         args = []
@@ -224,11 +225,18 @@ def find_partial_derivatives(expr):
             args += find_partial_derivatives(a)
         return args
 
+    elif isinstance(expr, (Matrix, ImmutableDenseMatrix)):
+        return find_partial_derivatives(list(expr))
+
     elif isinstance(expr, _partial_derivatives):
         return (expr,)
 
     elif isinstance(expr, _logical_partial_derivatives):
         return (expr,)
+
+    elif isinstance(expr, Basic):
+        # any other expression (elementary functions, ...): look into its arguments
+        return find_partial_derivatives(expr.args)
 
     return ()
 
